@@ -53,6 +53,11 @@ CHECKS = {
   "Every reachable state (cap 6 quick / 7 thorough) of two DOMs whose instances carry UniqueId tokens from {none,u1,u2,nil}; after every transition uniqueness, preservation-unless-collision and freshness are checked and the private bookkeeping set is probed with every token.",
   "Token alphabet of 3 ids + generated ids; builders with pairwise distinct tokens; overlapping clone_multiple excluded in this mode (entry order would matter).",
   "5/C12"),
+ "C13": ("faults", "fault_enumeration",
+  "exhaustive fault enumeration around the real decoders and encoders (every truncation offset, every single-byte / u32 / chunk / tag mutation of a corpus, every read() script with <=1-2 deviations, every failing-sink offset, complete small input universes) in crash-tolerant sandboxed worker processes with allocation tracking",
+  "Every case of each enumerated fault family is executed on the real code; outcomes other than Ok/Err (panic with site, oversized allocation with site, process abort, hang) are violations attributed to the exact case; truncation must be Err, read partitions must not change the result, a failing sink must be reported.",
+  "Corpus of 23 small valid files; mutation alphabets as listed in the evidence rule; 'all byte strings' only up to length 3 (attributes) / 5-6 over a 14-symbol alphabet (XML); address space capped at 3 GiB per worker.",
+  "5/C13"),
  "C14": ("codec", "model_checking",
   "bounded-exhaustive enumeration of attribute maps through the real encoder/decoder and through an independent codec written from docs/attributes.md (bound to the document's worked examples)",
   "Every map of the bounded space (<=3 entries, 4 names, every alphabet value of the 19 supported types) is encoded and decoded by rbx_types, decoded by the independent decoder, and re-encoded by the independent encoder for rbx_types to decode; 0/1-entry maps also travel through a binary and an XML file.",
@@ -123,6 +128,7 @@ def main():
         "engines": [
             {"name": "domx", "path": "harness/src/domx.rs", "serves_properties": ["C09", "C10", "C11", "C12"],
              "kind_free_text": "explicit-state BFS whose transition function calls the real WeakDom methods; reference model in lock-step (harness/src/dommodel.rs)"},
+            {"name": "faults", "path": "harness/src/c13.rs", "serves_properties": ["C13"], "kind_free_text": "fault enumeration (truncation, corruption, read scripts, failing sinks, small universes) in forked workers under RLIMIT_AS with a tracking allocator (harness/src/crashpool.rs, alloctrack.rs)"},
             {"name": "dbwalk", "path": "harness/src/c16.rs", "serves_properties": ["C06", "C15", "C16"], "kind_free_text": "complete enumeration of the reflection database through the public rbx_reflection types and both codecs"},
             {"name": "serdex", "path": "harness/src/c17.rs", "serves_properties": ["C17"], "kind_free_text": "bounded-exhaustive value enumeration through serde entry points"},
             {"name": "codec", "path": "harness/src/sweeps.rs", "serves_properties": ["C01", "C02", "C07", "C08", "C14"],
